@@ -463,7 +463,7 @@ func acosFunctionCalculator(parameters []*variants.Variant,
 	}
 
 	value, err := variantOperations.Convert(getParameter(parameters, 0), variants.Double)
-	if err == nil {
+	if err != nil {
 		return nil, err
 	}
 	result := variants.VariantFromDouble(math.Acos(value.AsDouble()))
